@@ -1,8 +1,10 @@
 #!/bin/bash
 # apply each behaviour-preserving refactoring to /repo and run all quick checks: nothing may be reported
+# usage: eval_harmless.sh [harmless|harmless2|harmless3]
 cd /verif
+B=${1:-harmless}
 for r in A B C D E F; do
-  git -C /repo apply /verif/seeded/harmless/ref$r.diff || { echo "ref$r: does not apply"; continue; }
+  git -C /repo apply /verif/seeded/$B/ref$r.diff || { echo "ref$r: does not apply"; continue; }
   for p in C01 C02 C03 C04 C05 C06 C07 C08 C09 C10 C11 C12 C13 C14 C15; do
     out=$(VERIF_FAST=1 ./check $p --seed 1 2>&1 | tail -2)
     if echo "$out" | grep -q VIOLATION; then echo "ref$r $p: $out" | cut -c1-400; cp replays/${p}_unproven_1.json work/ref${r}_${p}.json 2>/dev/null; cp replays/${p}_oracle_1.json work/ref${r}_${p}_o.json 2>/dev/null; fi
